@@ -92,9 +92,9 @@ def run(ctx):
         for p in range(np_):
             nch = rng.choice([1, 2, 3, 5, 10, 19, 20])
             full = rng.choice([1, 2, 16, 32])
-            nb = rng.choice([1, 2, 5, 12])
+            nb = rng.choice([1, 2, 5, 12, 1, 2, 5, 0])          # 0: a log pass that was started and stopped: a header and no data
             blocks = [full] * nb
-            if rng.random() < 0.5:
+            if nb and rng.random() < 0.5:
                 blocks.append(rng.randint(1, full))        # a short last block
             passes.append(dict(nch=nch, blocks=blocks))
         cases.append(('random', passes))
@@ -131,6 +131,9 @@ def run(ctx):
             if bad:
                 break
             nfr = sum(p['blocks'])
+            if fa.frame_array is None:
+                bad = 'pass %d (%d frames recorded) has no frame array' % (pi, nfr)
+                break
             names = [c.ident for c in fa.frame_array.channels]
             if names != ['X   '] + r['names']:
                 bad = 'pass %d channel names %r expected %r' % (pi, names, ['X   '] + r['names'])
